@@ -95,13 +95,14 @@ def GX(*a, **k):
 GROUPS = [
     # ---- O1: loop-free, every 64-bit raw value
     G('C16.O1.unit_interval', 'h_unit', 'proved', native=nat_simple('unit')),
-    G('C16.O1.bernoulli', 'h_bernoulli', 'proved', native=nat_simple('bernoulli', 'p'), expect='failed',
-      note='expected: bernoulli(0) returns 1 when cmb_random() == 0.0 (raw < 2^11), comparison is <='),
+    G('C16.O1.bernoulli', 'h_bernoulli', 'proved', native=nat_simple('bernoulli', 'p'),
+      note='before the fix commit: bernoulli(0) returns 1 when cmb_random() == 0.0 (raw < 2^11), comparison is <='),
     G('C16.O1.flip', 'h_flip', 'proved', flags=INTCHK, native=nat_simple('flip')),
-    G('C16.O1.dice', 'h_dice', 'proved', flags=INTCHK, native=nat_simple('dice', 'a', 'b'), expect='failed',
-      note='expected: (double)a + (b-a+1)*u rounds up to b+1 for u close to 1 (listed assumption |a|,|b| <= 2^31)'),
-    G('C16.O1.dice_126_131', 'h_dice', 'proved', defs=['C16_DICE_A=126', 'C16_DICE_B=131'], flags=INTCHK, expect='failed',
-      native=lambda v, raws: ['dice', '126', '131'], note='expected: dice(126,131) returns 132'),
+    G('C16.O1.dice', 'h_dice', 'proved', flags=INTCHK, native=nat_simple('dice', 'a', 'b'), note='listed assumption |a|,|b| <= 2^31 (no range is documented)'),
+    G('C16.O1.dice_126_131', 'h_dice', 'proved', defs=['C16_DICE_A=126', 'C16_DICE_B=131'], flags=INTCHK,
+      native=lambda v, raws: ['dice', '126', '131'], note='constants a = 126, b = 131 (the rounding witness of the repaired defect); also the inverse-CDF cell obligation'),
+    G('C16.O1.dice_m7_3', 'h_dice', 'proved', defs=['C16_DICE_A=(-7)', 'C16_DICE_B=3'], flags=INTCHK,
+      native=lambda v, raws: ['dice', '-7', '3'], note='constants a = -7, b = 3 (negative lower bound); also the inverse-CDF cell obligation'),
     G('C16.O1.uniform_overflow', 'h_uniform', 'proved', defs=['C16_UNI_BOUND=DBL_MAX'], native=nat_simple('uniform', 'lo', 'hi'), expect='failed',
       note='any finite min < max: max - min overflows to +inf for |min|,|max| near DBL_MAX'),
     G('C16.O1.uniform_unit', 'h_uniform', 'proved', defs=['C16_UNI_MIN=0.0', 'C16_UNI_MAX=1.0'], native=lambda v, r: ['uniform', '0', '1']),
@@ -117,25 +118,25 @@ GROUPS = [
     GX('C16.O1.triangular', 'h_triangular', 'proved', defs=['C16_EXACT_LIBM'], backends=(SAT, CADICAL), thorough=True,
       native=nat_simple('triangular', 'lo', 'md', 'hi'), note="CBMC's exact sqrt model; symbolic multiply/divide"),
     # ---- O2: bounded unwind n <= 3
-    G('C16.O2.loaded_dice', 'h_loaded_dice', 'bounded-unwind', defs=['C16_N=2'], flags=UNW(3), native=nat_probs('loaded_dice'), expect='failed',
-      note='n <= 2; expected: probabilities summing to 1 - eps (eps <= 1e-3, accepted by sums_to_one) fall through the cumulative search'),
-    G('C16.O2.loaded_dice_n3', 'h_loaded_dice', 'bounded-unwind', flags=UNW(4), backends=(CADICAL, SAT), native=nat_probs('loaded_dice'), expect='failed', thorough=True,
+    G('C16.O2.loaded_dice', 'h_loaded_dice', 'bounded-unwind', defs=['C16_N=2'], flags=UNW(3), native=nat_probs('loaded_dice'),
+      note='n <= 2; before the fix commit: probabilities summing to 1 - eps (eps <= 1e-3, accepted by sums_to_one) fall through the cumulative search'),
+    G('C16.O2.loaded_dice_n3', 'h_loaded_dice', 'bounded-unwind', flags=UNW(4), backends=(CADICAL, SAT), native=nat_probs('loaded_dice'), thorough=True,
       note='n <= 3 (MiniSat and z3 do not finish in 300 s, cadical about 2 min)'),
     G('C16.O2.alias_create', 'h_alias_create', 'bounded-unwind', defs=['C16_N=2'], flags=UNW(3) + CONV, native=nat_probs('alias'), note='n <= 2 (n <= 3 does not finish in 300 s: C16.O2.alias_create_n3, --thorough)'),
     GX('C16.O2.alias_create_n3', 'h_alias_create', 'bounded-unwind', flags=UNW(4) + CONV, backends=(SAT, ['--refine-arithmetic'], CADICAL), native=nat_probs('alias'), thorough=True, note='n <= 3'),
     G('C16.O2.alias_sample', 'h_alias_sample', 'bounded-unwind', flags=UNW(4) + CONV, native=None),
     G('C16.O2.binomial', 'h_binomial', 'bounded-unwind', flags=UNW(4), native=nat_binomial),
-    G('C16.O2.hyperexponential', 'h_hyperexp', 'bounded-unwind', defs=['C16_N=2'], repl=[EXP_STUB], flags=UNW(3), native=nat_probs('hyperexp', extra=('ma',)), expect='failed',
-      note='n <= 2; expected: inherits the loaded_dice defect, then reads ma[n]; cmi_random_exp_not_hot replaced by its contract (>= 0, finite)'),
+    G('C16.O2.hyperexponential', 'h_hyperexp', 'bounded-unwind', defs=['C16_N=2'], repl=[EXP_STUB], flags=UNW(3), native=nat_probs('hyperexp', extra=('ma',)),
+      note='n <= 2; before the fix commit: inherits the loaded_dice defect, then reads ma[n]; cmi_random_exp_not_hot replaced by its contract (>= 0, finite)'),
     G('C16.O2.hypoexponential', 'h_hypoexp', 'bounded-unwind', repl=[EXP_STUB], flags=UNW(4), native=None,
       note='cmi_random_exp_not_hot replaced by its contract (>= 0, finite)'),
     G('C16.O2.geometric', 'h_geometric', 'bounded-unwind', defs=['C16_HOT_ONLY_EXP'], repl=[EXP_STUB], flags=CONV,
-      native=nat_simple('geometric', 'p'), expect='failed',
-      note='expected: (unsigned)ceil(exp/denom) out of range for tiny p, 0 for p = 1 or raw = 0; listed assumption: ziggurat hot path only (idx <= zig_max); log() is a contract, so the native replay is the arbiter of this counterexample'),
+      native=nat_simple('geometric', 'p'),
+      note='before the fix commit: (unsigned)ceil(exp/denom) out of range for tiny p, 0 for p = 1 or raw = 0; listed assumption: ziggurat hot path only (idx <= zig_max); log() is a contract, so the native replay is the arbiter of this counterexample'),
     G('C16.O2.geometric_p1', 'h_geometric', 'bounded-unwind', defs=['C16_HOT_ONLY_EXP', 'C16_GEO_P=1.0'], repl=[EXP_STUB], flags=CONV,
-      native=lambda v, r: ['geometric', '1.0'], expect='failed', note='expected: p = 1 gives denom = -log(0) = +inf, quotient 0, result 0 on EVERY path (the canary is unreachable for that reason)'),
+      native=lambda v, r: ['geometric', '1.0'], note='before the fix commit: p = 1 gives denom = -log(0) = +inf, quotient 0, result 0 on EVERY path (the canary is unreachable for that reason)'),
     G('C16.O2.geometric_tiny', 'h_geometric', 'bounded-unwind', defs=['C16_HOT_ONLY_EXP', 'C16_GEO_P=0x1p-60'], repl=[EXP_STUB], flags=CONV,
-      native=lambda v, r: ['geometric', '0x1p-60'], expect='failed', note='expected: p < 2^-53 gives 1-p == 1, denom = -0.0, quotient -inf/NaN: float->unsigned conversion out of range on EVERY path'),
+      native=lambda v, r: ['geometric', '0x1p-60'], note='before the fix commit: p < 2^-53 gives 1-p == 1, denom = -0.0, quotient -inf/NaN: float->unsigned conversion out of range on EVERY path'),
     # ---- O3: table facts
     G('C16.O3.tables_exp', 'h_tables_exp', 'proved', flags=['--unwind', '257', '--unwinding-assertions']),
     G('C16.O3.tables_nor', 'h_tables_nor', 'proved', flags=['--unwind', '257', '--unwinding-assertions']),
